@@ -54,7 +54,7 @@ def _qd():
     return qd
 
 
-def unit_backward(xl_form, xu_form, pattern):
+def unit_backward(xl_form, xu_form, pattern, alias=False):
     """pattern over {T: tensor used by f, U: tensor requiring grad that f ignores, N: tensor without grad, X: number}"""
     qd = _qd()
     from xitorch._core.pure_function import get_pure_function
@@ -65,7 +65,10 @@ def unit_backward(xl_form, xu_form, pattern):
         params = []
         for i, k in enumerate(pattern):
             if k in "TU":
-                params.append(st.vec("p%d" % i, (2,), (0,), requires_grad=True))
+                if alias and params and i == len(pattern) - 1:
+                    params.append(params[0])          # one tensor passed in two parameter positions
+                else:
+                    params.append(st.vec("p%d" % i, (2,), (0,), requires_grad=True))
             elif k == "N":
                 params.append(st.vec("p%d" % i, (2,), (0,), requires_grad=False))
             else:
@@ -187,7 +190,7 @@ def unit_backward(xl_form, xu_form, pattern):
             j += 1
         c.check("state_change_lock_released", pfn._state_change_allowed is True)
         c.prove("canary", z3.BoolVal(False), kind="canary")
-    return kit.run_unit("backward[%s,%s,%s]" % (xl_form, xu_form, pattern or "-"), run)
+    return kit.run_unit("backward[%s,%s,%s%s]" % (xl_form, xu_form, pattern or "-", ",same_tensor_twice" if alias else ""), run)
 
 
 def _bwd(qd, fctx, g, quad_contract, grad_mode):
@@ -201,4 +204,6 @@ def units(tier):
              ("number", "tensor_grad", "TT"), ("tensor_grad", "number", "NT"), ("tensor_grad", "tensor_grad", ""),
              ("tensor", "tensor", "TU"), ("number", "number", "UT"), ("tensor_grad", "tensor", "X"),
              ("tensor_grad", "inf", "T"), ("inf", "tensor_grad", "T"), ("tensor", "tensor_grad", "U")]
-    return [("backward[%s,%s,%s]" % (a, b, p or "-"), (lambda a=a, b=b, p=p: unit_backward(a, b, p))) for a, b, p in cases]
+    us = [("backward[%s,%s,%s]" % (a, b, p or "-"), (lambda a=a, b=b, p=p: unit_backward(a, b, p))) for a, b, p in cases]
+    us.append(("backward[number,number,TT,same_tensor_twice]", lambda: unit_backward("number", "number", "TT", True)))
+    return us
